@@ -444,6 +444,16 @@ CORPUS["C15"] += [B("per-frame dt records concatenated without an emptiness guar
                   B("mu records concatenated without an emptiness guard", "R15.8", (DATA, "            if mus:\n                mu = np.concatenate(mus, axis=1)[..., mask]\n", "            mu = np.concatenate(mus, axis=1)[..., mask]\n")),
                   E("dt guard spelled as a statement", (DATA, DT_GUARD, "            if dts:\n                dt = np.concatenate(dts)\n            else:\n                dt = np.array([], dtype=float)\n"))]
 
+
+GLOBAL_CACHE = [(SOLVER, "logger = logging.getLogger(\"solver\")\n", "logger = logging.getLogger(\"solver\")\n_EPS_CACHE = {}\n"),
+                (SOLVER, "        old_sq_psi = xp.absolute(psi) ** 2\n", "        old_sq_psi = xp.absolute(psi) ** 2\n        _EPS_CACHE[step] = epsilon\n")]
+CLASS_COUNTER = [(SOLVER, "        old_sq_psi = xp.absolute(psi) ** 2\n", "        old_sq_psi = xp.absolute(psi) ** 2\n        TDGLSolver.last_step = step\n")]
+LOCAL_DICT = [(SOLVER, "        old_sq_psi = xp.absolute(psi) ** 2\n", "        old_sq_psi = xp.absolute(psi) ** 2\n        seen = {}\n        seen[step] = dt\n")]
+MUT_DEFAULT = [(SOLVER, "    def update_epsilon(self, time: float) -> np.ndarray:\n", "    def update_epsilon(self, time: float, _history=[]) -> np.ndarray:\n        _history.append(time)\n")]
+CORPUS["C09"] += [B("module-level cache written by update()", "R09.8", *GLOBAL_CACHE), B("class attribute written by update()", "R09.8", *CLASS_COUNTER),
+                  B("mutable default argument used as a history", "R09.7", *MUT_DEFAULT), E("a local dictionary in update()", *LOCAL_DICT)]
+CORPUS["C11"] += [B("module-level cache written by update()", "R11.9", *GLOBAL_CACHE), E("a local dictionary in update()", *LOCAL_DICT)]
+
 # ---------------------------------------------------------------------------
 # generic behaviour-preserving transformations of the anchor functions
 # ---------------------------------------------------------------------------
